@@ -43,6 +43,8 @@ type callJudgement struct {
 	scriptedFault   bool // a scripted faulty download may have been handed to this call
 	cancelledByPeer bool // a download that was aborted by ANOTHER caller's cancellation may have been handed to this call
 	ownerCancelled  bool // ... and the owner of such a download (another caller) was cancelled before the download ended
+	emptyDl         bool // a 200 answer with a well-formed but empty key set started before the call returned (grey)
+	nonOKJWKS       bool // a non-200 answer whose body was a well-formed JWKS may have been handed to this call
 	nTaint          int
 	skipGrey        bool
 	verdict         string // held-accept | held-reject | grey-* | violation
@@ -58,6 +60,9 @@ func judgeCall(rr *roundRec, ph *phaseRec, c *callRec) (callJudgement, *finding)
 		if d.OK() {
 			j.okAvail = true
 		}
+		if d.EmptySet() {
+			j.emptyDl = true
+		}
 		if taintEnd(d, ph.Quiet) <= c.CallSeq {
 			continue
 		}
@@ -67,8 +72,11 @@ func judgeCall(rr *roundRec, ph *phaseRec, c *callRec) (callJudgement, *finding)
 				j.ownerCancelled = true // the caller that started this download was cancelled while it was in flight
 			}
 		}
+		if d.ScriptStep().NonOKWithJWKS() && !d.Cancelled() {
+			j.nonOKJWKS = true
+		}
 		switch {
-		case d.OK():
+		case d.OK(), d.EmptySet():
 		case d.Cancelled() && d.ScriptedFaulty():
 			j.scriptedFault = true // it would have failed anyway: the endpoint was not serving
 		case d.Cancelled():
@@ -120,7 +128,7 @@ func judgeCall(rr *roundRec, ph *phaseRec, c *callRec) (callJudgement, *finding)
 	switch {
 	case !j.live:
 		j.verdict = "grey-reject:own-context-cancelled"
-	case j.rC == refAccept && j.rS == refAccept:
+	case j.rC == refAccept && j.rS == refAccept && !ph.C0Unsure && !j.emptyDl:
 		// cached and still served: no download is needed, no download can take the key away
 		j.verdict = "violation"
 		if j.scriptedFault {
@@ -142,6 +150,8 @@ func judgeCall(rr *roundRec, ph *phaseRec, c *callRec) (callJudgement, *finding)
 		j.verdict = "grey-reject:skip-remote-check"
 	case j.scriptedFault:
 		j.verdict = "grey-reject:faulty-download-overlapped"
+	case j.emptyDl:
+		j.verdict = "grey-reject:empty-key-set-downloaded-with-200"
 	default:
 		j.verdict = "violation"
 		if j.cancelledByPeer || (j.ownerCancelled && strings.Contains(c.Err, "context canceled")) {
@@ -221,7 +231,7 @@ func judgePhase(run *stats, rr *roundRec, pi int, ph *phaseRec) []finding {
 	}
 	sawFault := false
 	for _, d := range ds {
-		if !d.OK() && !d.Cancelled() {
+		if !d.OK() && !d.Cancelled() && !d.EmptySet() {
 			sawFault = true
 		}
 	}
@@ -295,6 +305,12 @@ func judgePhase(run *stats, rr *roundRec, pi int, ph *phaseRec) []finding {
 		}
 		if c.OK && j.live && j.ownerCancelled && j.rC != refAccept && j.rS == refAccept {
 			run.Observed("cancel:peer-cancelled-other-caller-still-succeeds")
+		}
+		if !c.OK && j.live && j.nonOKJWKS && j.rS == refAccept && j.rC != refAccept {
+			run.Observed("fault:non-200-answer-with-jwks-body-is-a-failed-download")
+		}
+		if j.emptyDl {
+			run.Count("grey", "call-after-200-with-empty-key-set:"+outc)
 		}
 		if c.CancelPoint == "parked-as-joiner" {
 			run.Observed("cancel:joiner-while-parked")
